@@ -1,5 +1,6 @@
 """C07 -- score-ranked distance suppression keeps a separated, dominating set"""
 from .common import *
+from . import C05 as _c05
 from . import C11 as _c11
 
 TITLE = "Score-ranked distance suppression keeps a separated, dominating set"
@@ -320,6 +321,7 @@ def o75(ctx):
 
 def _obligations():
     return [
+        Obligation("O7.20", "accessors of the particle list: get_coordinates = (x,y,z) + shifts, get_angles / get_rotations = the stored zxz angles, fill stores values as given (shared with C05)", _c05.accessors, floor=20),
         Obligation("O7.9", "score / angle maps given by path are read as written (shared with C11)", lambda ctx: (_c11.o111(ctx), _c11.o115(ctx)), floor=37),
         Obligation("O7.1", "clean_by_distance: group isolation, visit order, distance of complete positions < d, self-exclusion, kept-only", o71, floor=14),
         Obligation("O7.5", "scores_extract_particles: threshold, descending order, radius = diameter, tree/index agreement, fill wiring", o75, floor=16),
@@ -327,4 +329,4 @@ def _obligations():
 
 
 def obligations():
-    return _obligations() + [labels_obligation("C07"), selectors_obligation("C07"), effects_obligation("C07"), plumbing_obligation("C07"), overrides_obligation("C07"), options_obligation("C07")]
+    return _obligations() + [constructors_obligation(['cryomotl.Motl', 'cryomotl.EmMotl']), labels_obligation("C07"), selectors_obligation("C07"), effects_obligation("C07"), plumbing_obligation("C07"), overrides_obligation("C07"), options_obligation("C07")]
